@@ -22,6 +22,8 @@ func rulesC05(c *Ctx) {
 	ruleIsNewMaster(c, "C05")
 	ruleUint128Sites(c)
 	ruleRunElectionTable(c)
+	ruleStoreClientElectionID(c)
+	ruleDispatchTable(c) // every announcement on the stream reaches runElection (none is answered from a cache)
 	ruleElectionWriters(c)
 	ruleLockDiscipline(c, lockSel{classes: []string{"Server.elecMu"}})
 	ruleElectionAtomic(c)
